@@ -70,10 +70,11 @@ Proof. vm_compute. repeat split; reflexivity. Qed.
    position context: Some a for a spill cell (it lies in the range of an array formula written
    before it), None otherwise. *)
 Theorem C24_cell_types :
-  forall (num : Type) (show_num : num -> text) (read_num : text -> num) (formula : Type),
-  (forall n, read_num (show_num n) = n) ->
+  forall (num : Type) (show_num : num -> text) (read_num : text -> num) (formula : Type) (finite : num -> bool),
+  (forall n, finite n = true -> read_num (show_num n) = n) ->
   forall here (c : cell num formula),
   evaluated num formula c = true -> texts_ok num formula c = true -> ids_ok num formula c = true ->
+  nums_finite num formula finite c = true ->
   exists x, enc_cell num show_num formula c = Ok x /\
             dec_cell num read_num formula (anchor_of num formula c) here x = canonical num formula here c.
 Proof. exact cell_types. Qed.
@@ -82,11 +83,11 @@ Print Assumptions C24_cell_types.
 (* what [canonical] changes is exactly: a colliding text (F17) and the origin / message of an error
    value (not stored in the file). Otherwise the cell comes back as is: *)
 Theorem C24_cell_types_exact :
-  forall (num : Type) (show_num : num -> text) (read_num : text -> num) (formula : Type),
-  (forall n, read_num (show_num n) = n) ->
+  forall (num : Type) (show_num : num -> text) (read_num : text -> num) (formula : Type) (finite : num -> bool),
+  (forall n, finite n = true -> read_num (show_num n) = n) ->
   forall here (c : cell num formula),
   evaluated num formula c = true -> texts_ok num formula c = true -> ids_ok num formula c = true ->
-  exact num formula here c = true ->
+  nums_finite num formula finite c = true -> exact num formula here c = true ->
   exists x, enc_cell num show_num formula c = Ok x /\
             dec_cell num read_num formula (anchor_of num formula c) here x = c.
 Proof. exact cell_types_exact. Qed.
@@ -116,13 +117,22 @@ Print Assumptions C24_cell_error_origin_refuted.
 
 (* a spill cell the reader does not find inside an array range comes back as a value cell *)
 Theorem C24_cell_orphan_spill_refuted :
-  forall (num : Type) (show_num : num -> text) (read_num : text -> num) (formula : Type),
-  (forall n, read_num (show_num n) = n) ->
-  forall here s a n,
+  forall (num : Type) (show_num : num -> text) (read_num : text -> num) (formula : Type) (finite : num -> bool),
+  (forall n, finite n = true -> read_num (show_num n) = n) ->
+  forall here s a n, finite n = true ->
   exists x, enc_cell num show_num formula (CSpill num formula s a (SNum num n)) = Ok x /\
             dec_cell num read_num formula None here x = CNum num formula n s.
 Proof. exact orphan_spill_number. Qed.
 Print Assumptions C24_cell_orphan_spill_refuted.
+
+(* a non-finite number comes back as the reader's fallback (0.0 since /repo 3c03706) *)
+Theorem C24_cell_nonfinite_refuted :
+  forall (num : Type) (show_num : num -> text) (read_num : text -> num) (formula : Type) here s n z,
+  read_num (show_num n) = z ->
+  exists x, enc_cell num show_num formula (CNum num formula n s) = Ok x /\
+            dec_cell num read_num formula None here x = CNum num formula z s.
+Proof. exact nonfinite_number_replaced. Qed.
+Print Assumptions C24_cell_nonfinite_refuted.
 
 Theorem C24_cell_text_value_refuted :
   forall (num : Type) (show_num : num -> text) (read_num : text -> num) (formula : Type) here f s,
